@@ -51,3 +51,7 @@ func verifIsSystemXattr(u string) bool { panic("intrinsic") }
 func verifConcat(a, b []byte) []byte                      { panic("intrinsic") }
 func verifIsCounter(b []byte, n uint64) bool              { panic("intrinsic") }
 func verifCollLastCasAt(db *sql.DB, snap int, id int64) int64 { panic("intrinsic") }
+
+func verifPrefer(c bool) { panic("intrinsic") } // soft preference for replay-friendly models
+
+func verifIfI64(c bool, a, b int64) int64 { panic("intrinsic") }
